@@ -341,7 +341,8 @@ def coordinator(prop, tier, seed, nshards=None):
     known = [k for k in load_known() if k.get("property") == prop and k.get("status") == "known"]
     known_by_mech = {k["mechanism"]: k for k in known}
     lines, new_viol, known_seen = [], 0, {}
-    replay_dir = os.path.join(VERIF_ROOT, "replay", prop)
+    out_root = os.environ.get("VF_OUT", VERIF_ROOT)      # self-tests redirect evidence/replay away from /verif
+    replay_dir = os.path.join(out_root, "replay", prop)
     if os.path.isdir(replay_dir):
         for fn in os.listdir(replay_dir):
             if fn.endswith(".json"):
@@ -392,8 +393,8 @@ def coordinator(prop, tier, seed, nshards=None):
         "coverage": coverage, "assumptions": list(getattr(mod, "ASSUMPTIONS", [])),
         "wall_s": round(time.time() - t0, 2), "violations": new_viol,
     }
-    os.makedirs(os.path.join(VERIF_ROOT, "evidence"), exist_ok=True)
-    with open(os.path.join(VERIF_ROOT, "evidence", prop + ".json"), "w") as f:
+    os.makedirs(os.path.join(out_root, "evidence"), exist_ok=True)
+    with open(os.path.join(out_root, "evidence", prop + ".json"), "w") as f:
         json.dump(ev, f, indent=1, default=repr, sort_keys=True)
     try:
         import shutil
